@@ -97,6 +97,11 @@ pub trait Ext: Fixed + AzExt {
     /// deprecated inherent forms (still public API)
     fn x_wrapping_rem_int(self, i: Self::Bits) -> Self;
     fn x_overflowing_rem_int(self, i: Self::Bits) -> (Self, bool);
+    // iter::Sum / iter::Product over values and over references (impls exist per concrete family only)
+    fn x_sum_val(xs: &[Self]) -> Self;
+    fn x_sum_ref(xs: &[Self]) -> Self;
+    fn x_prod_val(xs: &[Self]) -> Self;
+    fn x_prod_ref(xs: &[Self]) -> Self;
     // comparisons with the primitive on the left (impls exist per concrete family only)
     fn x_rev_cmp_int(&self, isigned: bool, m: u32, ib: u128) -> [u8; 7];
     fn x_rev_cmp_f32(&self, f: f32) -> [u8; 7];
@@ -182,6 +187,10 @@ macro_rules! ext_common {
                 _ => unreachable!(),
             }
         }
+        fn x_sum_val(xs: &[Self]) -> Self { xs.iter().copied().sum() }
+        fn x_sum_ref(xs: &[Self]) -> Self { xs.iter().sum() }
+        fn x_prod_val(xs: &[Self]) -> Self { xs.iter().copied().product() }
+        fn x_prod_ref(xs: &[Self]) -> Self { xs.iter().product() }
         fn x_rev_cmp_f32(&self, f: f32) -> [u8; 7] { ord7(&f, self) }
         fn x_rev_cmp_f64(&self, f: f64) -> [u8; 7] { ord7(&f, self) }
     };
